@@ -276,7 +276,12 @@ PROPS = {
             "technique": "TLC model checking of Registry.tla (two-step registration, unregister, round robin, callbacks) + TLA+ trace validation of multi-tunnel histories of the real handler (RegistryMon.tla)"},
     "C15": {"level": "exploration", "runner": run_c15, "hang": True, "race": True,
             "also": ["C01_", "C02_", "C03_B", "C04_", "C05_", "C06_", "C07_", "C08_", "C13_", "C14_", "C16_", "C17_"],
-            "quick": lambda s: gen.fam_free(s, 64) + [x for x in gen.fam_meta(s, 32, gated=False) if "meta-bin" not in x["name"]],
+            "quick": lambda s: gen.fam_free(s, 64) + [x for x in gen.fam_meta(s, 32, gated=False) if "meta-bin" not in x["name"]]
+                               # a goroutine held inside a multi-step procedure while the RPC is cancelled / the channel closed
+                               + gen.fam_gates(s, 2, gates=["cli.hdr.accept", "cli.finish.cas", "cli.finish.removed", "cli.tx.lock", "srv.close.mid", "srv.finish.removed"],
+                                               faults=("cancel@park", "close@park"))
+                               # frames still in flight when a deadline ends the RPC on both ends (revision zero included)
+                               + [x for x in gen.fam_cancel(s, 2, policies=("lazy",)) if "deadline" in x["name"]],
             "thorough": lambda s: sum((gen.fam_free(s + i, 400) for i in range(4)), []) + [x for x in gen.fam_meta(s, 200, gated=False) if "meta-bin" not in x["name"]] + gen.fam_data(s, 100),
             "technique": "TLA+ trace validation (monitor mode) of free-running concurrent executions; Go race detector attached as auxiliary monitor",
             "text": "thread-safety is decided as conformance of concurrent executions: every free-running execution of a generated concurrent program, recorded with "
